@@ -31,12 +31,13 @@ import (
 	"verifharness/internal/sim"
 )
 
-// PendOpt selects the shapes the generator may produce. The zero value produces only shapes on
-// which the property texts hold of the unchanged tree; each switch enables one shape that
-// exhibits a reported finding.
+// PendOpt selects the shapes the generator may produce. SimulConflicts, CoinbaseGames and AlreadyMined
+// are shapes on which defects were found and repaired (KNOWN_FINDINGS.txt: 626fe73, 91b07dd, 0bc4560);
+// cmd/c09 switches them on by default. ForeignInputs produces the shape of the recorded, unrepaired
+// finding stale-pending:foreign-input and is switched on by -probes foreign only.
 type PendOpt struct {
-	SimulConflicts bool // two unconfirmed transactions spending the same coin are both delivered
-	ForeignInputs  bool // unconfirmed transactions depend on non-wallet outputs that are later double spent / are non-wallet outputs of pending parents
+	SimulConflicts bool // two unconfirmed transactions spending the same coin may both be pending (delivered together, or one block apart)
+	ForeignInputs  bool // transactions that concern a wallet depend on recent non-wallet outputs, which are later double spent
 	CoinbaseGames  bool // coinbase transactions pay staking / binding scripts
 	AlreadyMined   bool // a transaction first seen in a block is delivered as unconfirmed afterwards
 	Games          int  // percentage of wallet payees that are staking/binding scripts
